@@ -1,5 +1,5 @@
 (* Extraction of the C03 model: ExtrOcamlBasic + ExtrOcamlString only; nat/Z stay inductive. *)
 From Coq Require Import Extraction ExtrOcamlBasic ExtrOcamlString.
-From LC Require Import Common AstDefs GenDefs GramDefs ReadDefs CGramDefs PyGramDefs.
+From LC Require Import Common AstDefs GenDefs GramDefs ReadDefs CGramDefs PyGramDefs ScaleDefs.
 Extraction "gen_model.ml" ty_of_name ty_name gen_C gen_Py readC readPy trC trPy safeC safePy lvlC lvlPy
-  norm tree_eqb show_tree nat_to_string unsafe_sites ast_line profile_C profile_Py.
+  norm tree_eqb show_tree nat_to_string unsafe_sites ast_line profile_C profile_Py analysed_ast.
